@@ -4,6 +4,8 @@ import CookModel.Lemmas.FractionMore
 import CookModel.Lemmas.FractionDisplay
 import CookModel.Lemmas.DisplayText
 import CookModel.Lemmas.FractionNearest
+import CookModel.Lemmas.DisplayGroup
+import CookModel.Lemmas.DisplayShortest
 /-
   C12  Fraction approximation never misstates a value.
 
@@ -516,5 +518,117 @@ example : newApprox ratTable (9/10 : Rat) (1/5) 10 1 = some (.fraction 1 0 1 (-1
     the larger denominator, so the upper one is taken -/
 example : lookupKey ratTable 4375 8 = some ⟨5000, 1, 2⟩ := by decide +kernel
 -- ===== end w4c09best =====
+
+-- ===== w6numeric =====
+/-! ## `Display for GroupedQuantity` / `GroupedValue` (wave `w6numeric`, Lemmas/DisplayGroup.lean) -/
+
+/-- **The grouped-quantity `Display`** (every arithmetic instance): the text is the quantities of `iter()` — the known
+    physical quantities in enum order, the unknown-unit entries in the hash map's order `ord`, the others, the unit-less
+    total — each printed by the PLAIN quantity rule (`C12_display_quantity` with `alt = false`: the alternate flag is
+    not passed on, so no error suffix ever appears in a group), joined by `", "`; an empty group prints nothing; the
+    text has the items' lengths plus two characters per separator; and every item stands in the text as a contiguous
+    piece right after the comma-separated earlier items.  `GroupedValue` likewise over its values. -/
+theorem C12_display_grouped {α : Type} [Arith α] [FloatText α] (ord : MapOrder α) (g : GroupedQuantity α) :
+    g.display ord = ([',', ' '] : List Char).intercalate
+      ((g.knownList ++ (ord g.unknown).map (·.2) ++ g.other ++ g.noUnit.toList).map (SQuantity.display false)) ∧
+    (g.iter ord = [] → g.display ord = []) ∧
+    (g.display ord).length =
+      (((g.iter ord).map (SQuantity.display false)).map List.length).sum + 2 * ((g.iter ord).length - 1) ∧
+    (∀ pre q post, g.iter ord = pre ++ q :: post →
+      g.display ord =
+        (if pre = [] then [] else commaSeparated (pre.map (SQuantity.display false)) ++ [',', ' ']) ++
+        SQuantity.display false q ++
+        (if post = [] then [] else ',' :: ' ' :: commaSeparated (post.map (SQuantity.display false)))) ∧
+    (∀ vs : List (Value α), groupedValueDisplay vs =
+      ([',', ' '] : List Char).intercalate (vs.map (Value.display false))) := by
+  refine ⟨dgr_commaSeparated_eq _, ?_, ?_, ?_, fun vs => dgr_commaSeparated_eq _⟩
+  · intro h; simp [GroupedQuantity.display, h, commaSeparated]
+  · have := dgr_commaSeparated_length ((g.iter ord).map (SQuantity.display false))
+    simpa [GroupedQuantity.display] using this
+  · intro pre q post h
+    have := dgr_commaSeparated_split (pre.map (SQuantity.display false)) (SQuantity.display false q)
+      (post.map (SQuantity.display false))
+    simp only [GroupedQuantity.display, h, List.map_append, List.map_cons]
+    simpa using this
+
+/-- a group of `1/2` (a fraction with a recorded error that the alternate form would show) and `3` prints `1/2, 3` -/
+example : groupedValueDisplay [Value.number (.fraction 0 1 2 (1/100 : Rat)), .number (.regular 3)] =
+    ['1', '/', '2', ',', ' ', '3'] := by decide +kernel
+
+/-- **The model's f64 printer: accuracy, shortest and closest among its candidates — for every finite non-zero double,
+    with no fuel alternative.**  `(c, s)` = the digits the search returns (`f64Text` lays out `c · 10^(-s)`,
+    `C12_display_f64_roundtrip_partial`), `sn/sd = |x| · 10^s` exactly, `m = s + k` the number of significant digits
+    (`1 ≤ m ≤ 18`).  (1) `c` is `⌊|x|·10^s⌋` or its successor, so the printed numeral differs from the exact value by
+    less than one unit of its last position: `c·sd ≤ sn + sd` and `sn < (c+1)·sd`.  (2) SHORTEST among the candidates:
+    at no digit count `1 ≤ j < m` does the truncated `j`-digit decimal or its successor read back as `x`.  (3) CLOSEST
+    among the candidates: the successor is printed only if it reads back and the truncation does not or is not closer
+    (a tie goes up); the truncation printed with `m ≤ 17` reads back, and if the successor does too the truncation is
+    strictly closer.
+    PARTIAL — still missing: (a) that 17 digits always suffice (then `m ≤ 17` always and the printed text always reads
+    back); that no OTHER `j`-digit decimal reads back (monotonicity of the correctly rounded parser: only the two
+    neighbours of the value can); and (c) that `f64Num / f64Den` is the value of the bit pattern (it is
+    `mantissa · 2^exponent` by definition).  All three are covered by the comparison with `format!` only. -/
+theorem C12_display_f64_shortest_partial (x : Float) :
+    ∃ m : Nat, 1 ≤ m ∧ m ≤ 18 ∧
+      (shortestDigits (UInt64.ofNat (x.toBits.toNat % 2 ^ 63)) (f64Num x.toBits.toNat) (f64Den x.toBits.toNat)).2 =
+        (m : Int) - decExponent (f64Num x.toBits.toNat) (f64Den x.toBits.toNat) ∧
+      ((shortestDigits (UInt64.ofNat (x.toBits.toNat % 2 ^ 63)) (f64Num x.toBits.toNat) (f64Den x.toBits.toNat)).1 *
+          scaledDen (f64Den x.toBits.toNat) ((m : Int) - decExponent (f64Num x.toBits.toNat) (f64Den x.toBits.toNat)) ≤
+        scaledNum (f64Num x.toBits.toNat) ((m : Int) - decExponent (f64Num x.toBits.toNat) (f64Den x.toBits.toNat)) +
+          scaledDen (f64Den x.toBits.toNat) ((m : Int) - decExponent (f64Num x.toBits.toNat) (f64Den x.toBits.toNat)) ∧
+       scaledNum (f64Num x.toBits.toNat) ((m : Int) - decExponent (f64Num x.toBits.toNat) (f64Den x.toBits.toNat)) <
+        ((shortestDigits (UInt64.ofNat (x.toBits.toNat % 2 ^ 63)) (f64Num x.toBits.toNat) (f64Den x.toBits.toNat)).1 + 1) *
+          scaledDen (f64Den x.toBits.toNat) ((m : Int) - decExponent (f64Num x.toBits.toNat) (f64Den x.toBits.toNat))) ∧
+      (∀ j, 1 ≤ j → j < m →
+        bitsOfDecimal (dshLo (f64Num x.toBits.toNat) (f64Den x.toBits.toNat)
+            (decExponent (f64Num x.toBits.toNat) (f64Den x.toBits.toNat)) j)
+          ((j : Int) - decExponent (f64Num x.toBits.toNat) (f64Den x.toBits.toNat)) ≠
+            UInt64.ofNat (x.toBits.toNat % 2 ^ 63) ∧
+        bitsOfDecimal (dshLo (f64Num x.toBits.toNat) (f64Den x.toBits.toNat)
+            (decExponent (f64Num x.toBits.toNat) (f64Den x.toBits.toNat)) j + 1)
+          ((j : Int) - decExponent (f64Num x.toBits.toNat) (f64Den x.toBits.toNat)) ≠
+            UInt64.ofNat (x.toBits.toNat % 2 ^ 63)) ∧
+      ((shortestDigits (UInt64.ofNat (x.toBits.toNat % 2 ^ 63)) (f64Num x.toBits.toNat) (f64Den x.toBits.toNat)).1 =
+          dshLo (f64Num x.toBits.toNat) (f64Den x.toBits.toNat)
+            (decExponent (f64Num x.toBits.toNat) (f64Den x.toBits.toNat)) m + 1 →
+        bitsOfDecimal (dshLo (f64Num x.toBits.toNat) (f64Den x.toBits.toNat)
+            (decExponent (f64Num x.toBits.toNat) (f64Den x.toBits.toNat)) m + 1)
+          ((m : Int) - decExponent (f64Num x.toBits.toNat) (f64Den x.toBits.toNat)) =
+            UInt64.ofNat (x.toBits.toNat % 2 ^ 63) ∧
+        (bitsOfDecimal (dshLo (f64Num x.toBits.toNat) (f64Den x.toBits.toNat)
+            (decExponent (f64Num x.toBits.toNat) (f64Den x.toBits.toNat)) m)
+          ((m : Int) - decExponent (f64Num x.toBits.toNat) (f64Den x.toBits.toNat)) =
+            UInt64.ofNat (x.toBits.toNat % 2 ^ 63) →
+          2 * dshRem (f64Num x.toBits.toNat) (f64Den x.toBits.toNat)
+              (decExponent (f64Num x.toBits.toNat) (f64Den x.toBits.toNat)) m ≥
+            scaledDen (f64Den x.toBits.toNat) ((m : Int) - decExponent (f64Num x.toBits.toNat) (f64Den x.toBits.toNat)))) ∧
+      ((shortestDigits (UInt64.ofNat (x.toBits.toNat % 2 ^ 63)) (f64Num x.toBits.toNat) (f64Den x.toBits.toNat)).1 =
+          dshLo (f64Num x.toBits.toNat) (f64Den x.toBits.toNat)
+            (decExponent (f64Num x.toBits.toNat) (f64Den x.toBits.toNat)) m → m ≤ 17 →
+        bitsOfDecimal (dshLo (f64Num x.toBits.toNat) (f64Den x.toBits.toNat)
+            (decExponent (f64Num x.toBits.toNat) (f64Den x.toBits.toNat)) m)
+          ((m : Int) - decExponent (f64Num x.toBits.toNat) (f64Den x.toBits.toNat)) =
+            UInt64.ofNat (x.toBits.toNat % 2 ^ 63) ∧
+        (bitsOfDecimal (dshLo (f64Num x.toBits.toNat) (f64Den x.toBits.toNat)
+            (decExponent (f64Num x.toBits.toNat) (f64Den x.toBits.toNat)) m + 1)
+          ((m : Int) - decExponent (f64Num x.toBits.toNat) (f64Den x.toBits.toNat)) =
+            UInt64.ofNat (x.toBits.toNat % 2 ^ 63) →
+          2 * dshRem (f64Num x.toBits.toNat) (f64Den x.toBits.toNat)
+              (decExponent (f64Num x.toBits.toNat) (f64Den x.toBits.toNat)) m <
+            scaledDen (f64Den x.toBits.toNat) ((m : Int) - decExponent (f64Num x.toBits.toNat) (f64Den x.toBits.toNat)))) := by
+  obtain ⟨m, h1, h2, hs, hc, hshort, hA, hB⟩ :=
+    dsh_shortestFrom_spec (UInt64.ofNat (x.toBits.toNat % 2 ^ 63)) (f64Num x.toBits.toNat) (f64Den x.toBits.toNat)
+      (decExponent (f64Num x.toBits.toNat) (f64Den x.toBits.toNat)) 17 1
+  refine ⟨m, h1, h2, hs, ?_, hshort, hA, ?_⟩
+  · exact dsh_within_one _ _ _ m _ (dsh_f64Den_pos _) hc
+  · intro hr hm; exact hB hr (by omega)
+
+/-- the statement speaks about something: `0.1` (bits `0x3FB999999999999A`) is found at ONE significant digit
+    (`c = 1`, `s = 1`: the successor of the truncation `0`), `0.3` likewise with `c = 3` -/
+example : shortestDigits (UInt64.ofNat (0x3FB999999999999A % 2 ^ 63)) (f64Num 0x3FB999999999999A)
+    (f64Den 0x3FB999999999999A) = (1, 1) ∧
+    shortestDigits (UInt64.ofNat (0x3FD3333333333333 % 2 ^ 63)) (f64Num 0x3FD3333333333333)
+    (f64Den 0x3FD3333333333333) = (3, 1) := by decide +kernel
+-- ===== end w6numeric =====
 
 end Cook
